@@ -178,9 +178,9 @@ def solve_with_interval(goal, cond):
         except SymPyException:
             return False
 
-        # print("Sympy solve: ", sympy_goal, " on interval ", interval)
+        if sympy_goal.free_symbols - {var}:
+            return False  # the interval says nothing about other variables
         res = solveset_wrapper(sympy_goal, var, interval)
-        # print("Result: ", res)
         return res == sympy.EmptySet
 
     try:
@@ -188,7 +188,8 @@ def solve_with_interval(goal, cond):
     except SymPyException:
         return False
 
-    # print("Sympy solve: ", sympy_goal, " on interval ", interval)
+    if getattr(sympy_goal, 'free_symbols', set()) - {var}:
+        return False  # the interval says nothing about other variables
     try:
         res = solveset_wrapper(sympy_goal, var, interval)
     except TypeError:  # raised by Sympy
